@@ -13,7 +13,7 @@ WIDTH = {'arm': 32, 't16': 16, 't32': 32}
 
 
 class Row:
-    def __init__(self, cls, iset, pattern, op, when=None, unpred=None, undef=None, family=None, note=''):
+    def __init__(self, cls, iset, pattern, op, when=None, unpred=None, undef=None, family=None, note='', opfields=None, exec_class=None):
         self.cls = cls
         self.iset = iset
         self.pattern = pattern
@@ -23,6 +23,10 @@ class Row:
         self.undef = undef
         self.family = family
         self.note = note
+        # rows whose operation is verified at function level (loop cut): the step units check only that decode hands
+        # execute() of `exec_class` the architectural fields `opfields(f)`
+        self.opfields = opfields
+        self.exec_class = exec_class
         self.width = WIDTH[iset]
         self.mask = 0
         self.value = 0
